@@ -14,7 +14,7 @@ def instances(tier):
                     [(3, 3, 1), (4, 3, 2), (6, 3, 1), (6, 2, 2), (15, 2, 2), (16, 2, 1), (17, 2, 2), (24, 2, 1), (48, 2, 2), (1024, 1, 1), (1025, 1, 2)]):
         out.append({'entry': 'h_split', 'params': [n, k, m], 'bound': 'length %d ("a,b;" filler + %d symbolic bytes), every separator/pattern of %d NUL-free byte(s)' % (n, k, m)})
     for n0, ops in ([(0, 2), (7, 2), (14, 2), (15, 2), (16, 1), (22, 2), (23, 1), (24, 1), (500, 1), (1020, 1)] if q else
-                    [(0, 3), (7, 2), (14, 2), (15, 3), (16, 2), (22, 2), (23, 2), (24, 2), (500, 2), (511, 2), (1020, 2), (1023, 1)]):
+                    [(0, 3), (7, 2), (14, 2), (15, 3), (16, 2), (22, 2), (23, 2), (24, 2), (500, 1), (511, 1), (1020, 1), (1023, 1)]):
         out.append({'entry': 'h_mut', 'params': [n0, ops, ALLOPS], 'bound': 'every history of %d in-place ops (10 kinds incl. s+=s, s+=*s+k, s=*s+k, s=s) from a %d-byte string' % (ops, n0)})
     for kind, dmax, name in ((0, 10, 'int'), (1, 10, 'unsigned'), (2, 19, 'Long'), (3, 20, 'ULong')):
         for d in range(0, dmax + 1):
@@ -35,7 +35,7 @@ def instances(tier):
 CAPLIM = 1090
 BUDGET_S = {'quick': 3600, 'thorough': 10800}
 BOUNDS = {'quick': 'lengths {0,1,2,3,14..17,19,20,23,24,47,48,1022..1025} with 1-3 fully symbolic tail bytes; separators of 1-2 symbolic bytes; mutation histories of 1-2 ops from 10 start lengths; integers: every value with <= 4 digits and every value within 20 of each power of ten and of each type limit (32/64 bit, signed/unsigned); printf-style construction around the 16/100/256-byte buffer boundaries',
-          'thorough': 'as quick with 2 (lengths 3, 4, 15, 16: 3) symbolic tail bytes, 2 (from 0 and 15 bytes: 3) op histories, every integer with <= 5 digits'}
+          'thorough': 'as quick with 2 (lengths 3, 4, 15, 16: 3) symbolic tail bytes, 2 (from 0 and 15 bytes: 3; from 500+ bytes: 1) op histories, every integer with <= 5 digits'}
 OUTSIDE = ['integers with 6+ digits away from powers of ten (the multiply/divide-by-10 round trip over a full digit class does not finish in z3 within 60 s from 7 digits on)',
            'float/double text (libc %g / atof)', 'formatted content beyond %s and %i (libc printf is replaced by the mini printf of env/vlibc.c)', 'strings longer than 1100 bytes', 'wide-character paths']
 ASSUMPTIONS = ['vsnprintf/snprintf are the mini implementation in env/vlibc.c (C-locale, %s %i %d %u %x %llu ...), executed symbolically']
